@@ -213,6 +213,8 @@ class Transformer(NamedTuple):
             return
 
         # if new markers detected, remove old contracts and add a new deal.has
+        if self._disabled(TransformationType.HAS):
+            return
         for contract in func.contracts:
             if contract.category not in cats:
                 continue
